@@ -51,7 +51,22 @@ on the mutated copy and exit 0 on /repo):
       MISSED by the first version (random operands never share a leading octet). Now exit 1 through the boundary strata:
       xor-result-length-differs / xor-differs-from-octetwise-xor (xor 'C' 'C' -> b''), cryptosign-answer-length-differs (190 hex
       characters), scram-proof-length-differs / scram-client-proof-differs (31-octet proof, corpus/C19/scram-proof-leading-zero-1a)
-(the four KNOWN-FINDING lines are printed in every run, mutated or not)
+(the KNOWN-FINDING lines of the open findings are printed in every run, mutated or not)
+
+Repairs 2026-09-23 (fix: commits in /repo, see known_findings.d/C19.jsonl): kdf='pbkdf2' decodes the salt (SaltedPassword =
+PBKDF2-HMAC-SHA256(password, b64decode(salt), i, 32)); the auth message is encoded as UTF-8. Model, theorems and oracle follow the
+repaired code: the Spec of the PBKDF2 flavour is Scram.saltedPassword .pbkdf2 (driver op auth.scram.kdf) with hashlib as second
+reference, its proof must be accepted by an RFC 5802 server built from the raw PBKDF2 output; the auth message must be the UTF-8
+octets (Lean RFC 3629 encoder, driver op auth.scram.am on code points) for non-ASCII authid / nonce / binding, and only a lone
+surrogate may raise. Against the unrepaired tree (/repo at 5c8d9c57) the check exits 1 with scram-pbkdf2-kdf-raises-ValueError,
+scram-non-ascii-authid-raises-UnicodeEncodeError and scram-non-ascii-challenge-field-raises-UnicodeEncodeError (same .encode call).
+Self-test of the repaired paths (single edits in a copy of the repaired tree, quick tier):
+  M19 pbkdf2 branch: salt.encode("ascii") instead of b64decode   exit 1  scram-pbkdf2-salted-password-differs-from-pbkdf2-hmac-sha256,
+                                                                         scram-proof-rejected-by-server-with-same-salted-password
+  M20 auth message .encode("latin1")                              exit 1  scram-auth-message-differs, scram-client-proof-differs,
+                                                                         scram-non-ascii-authid-raises-UnicodeEncodeError (code points > 255)
+  corpus/C19/regress-*.json replayed alone: exit 0 on the repaired tree, exit 1 on 5c8d9c57.
+Still open (interoperability-defining, see the entries): Argon2id salted password = base64 text of the tag; password not SASLprepped.
 """
 import base64
 import hashlib
@@ -73,8 +88,10 @@ TRANSLATORS = []
 TRUSTED = [
     "Lean 4.33 kernel; axioms of every theorem audited to be within {propext, Classical.choice, Quot.sound}",
     "hand-written Lean models Abverif/Model/Auth.lean (compute_wcs, pbkdf2, derive_key, AuthWampCra.on_challenge, "
-    "compute_totp, check_totp, AuthScram.on_challenge/on_welcome over abstract hash/HMAC/KDF, _format_challenge, "
-    "_sign_challenge over an abstract signer, util.xor) — tied to the code only by the differential run",
+    "compute_totp, check_totp, AuthScram.on_challenge/on_welcome over abstract hash/HMAC, the KDF selection with the "
+    "PBKDF2 flavour concrete and Argon2id abstract, the UTF-8 encoding of the auth message via the RFC 3629 encoder of "
+    "Model/Utf8Spec.lean, _format_challenge, _sign_challenge over an abstract signer, util.xor) — tied to the code only "
+    "by the differential run",
     "Lean reference SHA-1/SHA-256/HMAC/PBKDF2/Base64/Base32/hex: NOT proved equal to OpenSSL/CPython; kernel-evaluated "
     "on RFC 3174/6234/4231/2202/6070/7914/4648/4226/6238 vectors and compared on every generated case with hashlib",
     "third-party primitives, exercised not verified: OpenSSL (PBKDF2, Ed25519, Argon2id via `cryptography`), libsodium "
@@ -105,10 +122,16 @@ MANIFEST_ENTRY = {
             "The primitives (SHA-1/256, HMAC, PBKDF2, Ed25519, Argon2id) are TRUSTED and only differentially tested: the "
             "real functions agree with the Lean reference and with hashlib / OpenSSL on all generated secrets (non-ASCII, "
             "empty, 1 KiB), salts of 0..64 octets, iterations {1,2,1000,4096}, key lengths {1,16,20,32,33,64}, challenges, "
-            "channel ids, and all single-bit alterations are rejected. Known findings: kdf='pbkdf2' raises ValueError; "
-            "non-ASCII authid raises UnicodeEncodeError; the Argon2id salted password is the base64 text of the tag and "
-            "the password is not SASLprep'd, so an RFC 5802 / WAMP-SCRAM server built from the raw tag / the normalized "
-            "password rejects the proof.",
+            "channel ids, and all single-bit alterations are rejected. WAMP-SCRAM after the two repairs: proved that the "
+            "auth message is the UTF-8 encoding (RFC 3629 encoder) of n=..,r=..,r=..,s=..,i=..,c=..,r=.. for every text "
+            "without lone surrogates, unchanged for ASCII text, and that on_challenge then always answers; proved that the "
+            "PBKDF2 flavour derives SaltedPassword = PBKDF2-HMAC-SHA256(password, base64-decoded salt, i, 32), fails only for an "
+            "undecodable / non-ASCII salt text or 0 iterations, and that an RFC 5802 server holding keys derived from that "
+            "value accepts the proof and has its signature accepted; both checked on the real code against the Lean "
+            "reference and hashlib (salts of 0..64 octets, lenient base64 forms, iterations {1,2,1000,4096}, non-ASCII authid, "
+            "nonce and channel binding, lone surrogates). Open findings: the Argon2id salted password is the base64 text of "
+            "the tag and the password is not SASLprepped, so an RFC 5802 / WAMP-SCRAM server built from the raw tag / the "
+            "normalized password rejects the proof (left as is: the convention is what deployed routers store).",
     "note": "Level: proof for the algebraic layer only. No theorem speaks about OpenSSL, libsodium or argon2; equality of "
             "the Lean reference with them is evidence from vectors and differential runs. Cryptographic strength is out of "
             "scope. Argon2id independent implementation: cryptography/OpenSSL (not the argon2-cffi backend autobahn uses).",
@@ -134,6 +157,11 @@ def th(s):
 def cps(s):
     """text -> octets of its code points for the Lean model (code points > 255 become 255: all >= 128 behave alike)"""
     return bytes(min(ord(c), 255) for c in s)
+
+
+def cpl(s):
+    """str -> code point list token of the line protocol (`str` arguments that may hold any character)"""
+    return ".".join(str(ord(c)) for c in s) or "-"
 
 
 def lean_text(ans):
@@ -341,11 +369,54 @@ def gen_cases(ctx):
         cases.append({"op": "scram", "authid": th("user"), "password": th("pw"), "nonce_random": rng.randbytes(16).hex(),
                       "extra": {"nonce": th("c2VydmVy"), "kdf": th("argon2id-13"), "salt": th(base64.b64encode(rng.randbytes(16)).decode())},
                       "extra_raw": {"iterations": 4096, "memory": 512}, "welcome": "exhaustive"})
-    for it in ITERS:     # kdf = pbkdf2 (ledger F15)
-        for pw in ("pw", "pässwörd✓"):
-            cases.append({"op": "scram", "authid": th("user"), "password": th(pw), "nonce_random": rng.randbytes(16).hex(),
-                          "extra": {"nonce": th("c2VydmVy"), "kdf": th("pbkdf2"), "salt": th(base64.b64encode(rng.randbytes(16)).decode())},
-                          "extra_raw": {"iterations": it}, "welcome": "few"})
+    # kdf = pbkdf2 (ledger F15, repaired): SaltedPassword := PBKDF2-HMAC-SHA256(password, b64decode(salt), i, 32)
+    k = 0
+    for it in ITERS:
+        for pw in (("pw", "pässwörd✓") if quick else ("pw", "", "pässwörd✓", "x" * 1024, "pass­word")):
+            for sl in ((0, 16, 33) if quick else (0, 1, 8, 15, 16, 17, 32, 33, 64)):
+                k += 1
+                authid = authids[k % len(authids)] if k % 3 == 0 else "user"
+                c = {"op": "scram", "authid": th(authid), "password": th(pw), "nonce_random": rng.randbytes(16).hex(),
+                     "extra": {"nonce": th(base64.b64encode(rng.randbytes(16)).decode()), "kdf": th("pbkdf2"),
+                               "salt": th(base64.b64encode(rng.randbytes(sl)).decode())},
+                     "extra_raw": {"iterations": it}, "welcome": "exhaustive" if k % (9 if quick else 4) == 0 else "few"}
+                if k % 4 == 1:
+                    c["extra"]["channel_binding"] = th(rng.choice(["tls-unique", "", "x"]))
+                if k % 5 == 0:
+                    c["extra_raw"]["iterations"] = str(it)       # the code takes int(...)
+                if k % 7 == 0:
+                    c["extra_raw"]["memory"] = 16                # optional attribute, ignored by this KDF
+                cases.append(c)
+    for it in ITERS:     # the historical replay of the finding
+        cases.append({"op": "scram", "authid": th("user"), "password": th("pw"), "nonce_random": rng.randbytes(16).hex(),
+                      "extra": {"nonce": th("c2VydmVy"), "kdf": th("pbkdf2"), "salt": th(base64.b64encode(rng.randbytes(16)).decode())},
+                      "extra_raw": {"iterations": it}, "welcome": "few"})
+    # published vector behind the salted password: password/salt/4096/32 (PBKDF2-HMAC-SHA256 companion of RFC 6070 #3)
+    cases.append({"op": "scram", "authid": th("user"), "password": th("password"), "nonce_random": rng.randbytes(16).hex(),
+                  "extra": {"nonce": th("c2VydmVy"), "kdf": th("pbkdf2"), "salt": th("c2FsdA==")}, "extra_raw": {"iterations": 4096},
+                  "welcome": "few", "sp_literal": "c5e478d59288c841aa530db6845c4c8d962893a001ce4e11a4963873aa98134a"})
+    # salt texts CPython's lenient b64decode accepts / refuses, 0 iterations
+    for salt_text, it in (("c2Fs!dA==", 2), (" c2FsdA==\n", 2), ("c2FsdA==c2FsdA==", 2), ("c2FsdA", 2), ("c2F", 2), ("c", 2), ("====", 2),
+                          ("c2FsdA=", 2), ("sält", 2), ("c2FsdA==", 0)):
+        cases.append({"op": "scram", "authid": th("user"), "password": th("pw"), "nonce_random": rng.randbytes(16).hex(),
+                      "extra": {"nonce": th("c2VydmVy"), "kdf": th("pbkdf2"), "salt": th(salt_text)}, "extra_raw": {"iterations": it},
+                      "welcome": "few", "stratum_kdf": "pbkdf2-salt-text"})
+    # the auth message is UTF-8 (RFC 5802 5.1): non-ASCII authid / nonce / channel binding with both KDFs; a lone surrogate
+    # (possible in a str, e.g. from a JSON escape) is the one thing .encode("utf8") refuses
+    for kdfname, raw in (("argon2id-13", {"iterations": 1, "memory": 8}), ("pbkdf2", {"iterations": 2})):
+        salt = base64.b64encode(rng.randbytes(16)).decode()
+        for authid, nonce, cbind in (("üser", "c2VydmVy", None), ("Ωμέγα-用户-\U0001f511", "c2VydmVy", None), ("user", "nöncé", None),
+                                      ("user", "c2VydmVy", "bïnding"), ("é", "中", "\U0001f511"), ("\u07ff\u0800\uffff\U00010000\U0010ffff", "c2VydmVy", None)):
+            c = {"op": "scram", "authid": th(authid), "password": th("pw"), "nonce_random": rng.randbytes(16).hex(),
+                 "extra": {"nonce": th(nonce), "kdf": th(kdfname), "salt": th(salt)}, "extra_raw": dict(raw), "welcome": "few"}
+            if cbind is not None:
+                c["extra"]["channel_binding"] = th(cbind)
+            cases.append(c)
+        for field, val in (("nonce", [0xd800]), ("nonce", [99, 0xdfff, 100]), ("channel_binding", [0xdc80])):
+            c = {"op": "scram", "authid": th("user"), "password": th("pw"), "nonce_random": rng.randbytes(16).hex(),
+                 "extra": {"nonce": th("c2VydmVy"), "kdf": th(kdfname), "salt": th(salt)}, "extra_cps": {field: val},
+                 "extra_raw": dict(raw), "welcome": "few"}
+            cases.append(c)
     base = {"nonce": th("c2VydmVy"), "kdf": th("argon2id-13"), "salt": th(base64.b64encode(b"0123456789abcdef").decode())}
     for extra, raw in (({**base, "kdf": th("scrypt")}, {"iterations": 1, "memory": 8}),
                        (base, {"iterations": 1}),                                  # memory missing
@@ -704,6 +775,7 @@ def judge_scram(J, cases, results):
         authid = bytes.fromhex(c["authid"]).decode()
         password = bytes.fromhex(c["password"]).decode()
         extra = {k: bytes.fromhex(v).decode() for k, v in c["extra"].items()}
+        extra.update({k: "".join(map(chr, v)) for k, v in c.get("extra_cps", {}).items()})    # values given as code points (lone surrogates)
         raw = c.get("extra_raw", {})
         kdf = extra.get("kdf")
         res.count(f"scram:kdf={kdf}")
@@ -732,32 +804,64 @@ def judge_scram(J, cases, results):
         iters = int(raw["iterations"])
         cb_text = extra.get("channel_binding", "")
         am_ref = f"n={prepped},r={cn_ref},r={extra['nonce']},s={extra['salt']},i={iters},c={cb_text},r={extra['nonce']}"
-        ascii_ok = all(ord(ch) < 128 for ch in am_ref)
+        try:
+            am_oct = am_ref.encode("utf8")       # RFC 5802 5.1: UTF-8
+        except UnicodeEncodeError:
+            am_oct = None                        # a lone surrogate: the one thing .encode("utf8") refuses
+        authid_ascii = all(ord(ch) < 128 for ch in prepped)
         res.count("scram:authid=" + ("ascii" if all(ord(ch) < 128 for ch in authid) else "non-ascii"))
-        indep_raw = r.get("indep_kdf_raw")
-        if indep_raw is None:
-            # the independent KDF refused the parameters (e.g. salt < 8 octets): the code must refuse too
-            if "err" not in proof:
-                J.violation("scram-kdf-parameters-refused-by-independent-kdf-accepted", f"{r.get('indep_kdf_err')} vs {proof}", c, proof)
-            res.count("scram:kdf-refuses")
-            continue
-        indep_raw = bytes.fromhex(indep_raw)
-        # the Spec's salted password is the raw KDF output (RFC 5802 / WAMP-SCRAM: SaltedPassword := KDF(Normalize(password), salt, params))
-        # what the code uses for Argon2id is the unpadded base64 text of it
-        sp_text = b64nopad(indep_raw)
-        lines = [f"auth.scram.am {hx(cps(prepped))} {hx(cn_ref.encode())} {hx(extra['nonce'].encode())} {hx(extra['salt'].encode())} {iters} {hx(cb_text.encode())}"]
-        if not ascii_ok:
+        res.count("scram:auth-message=" + ("lone-surrogate" if am_oct is None else "ascii" if all(ord(ch) < 128 for ch in am_ref) else "non-ascii"))
+        targs = f"{cpl(prepped)} {cpl(cn_ref)} {cpl(extra['nonce'])} {cpl(extra['salt'])} {iters} {cpl(cb_text)}"
+        am_line = f"auth.scram.am {targs}"
+        if am_oct is None:
             def cb(ans, c=c, proof=proof):
                 if ans[0] != "err UnicodeEncodeError":
-                    J.refs_disagree("auth message of a non-ASCII authid", c, ans[0], "err UnicodeEncodeError")
-                if proof == {"err": "UnicodeEncodeError"}:
+                    J.refs_disagree("auth message with a lone surrogate", c, ans[0], "err UnicodeEncodeError")
+                if proof != {"err": "UnicodeEncodeError"}:
+                    J.violation("scram-lone-surrogate-in-auth-message-not-refused", f"a field with a lone surrogate cannot be encoded as UTF-8; got {proof}", c, proof)
+            J.ask([am_line], cb)
+            continue
+        if proof == {"err": "UnicodeEncodeError"}:
+            # the text is proper Unicode: UTF-8 can carry it (the Spec does: see the Lean answer below)
+            def cb(ans, c=c, proof=proof, am_oct=am_oct, authid_ascii=authid_ascii):
+                if lean_exc(ans[0], text=False) != ("ok", am_oct.hex()):
+                    J.refs_disagree("auth message (UTF-8)", c, ans[0], am_oct.hex())
+                if not authid_ascii:
                     J.violation("scram-non-ascii-authid-raises-UnicodeEncodeError",
                                 "AuthScram.on_challenge raises UnicodeEncodeError for an authid that stays non-ASCII after SASLprep "
                                 "(RFC 5802 5.1: the user name is UTF-8); no proof is produced", c, proof)
-                elif "err" in proof:
-                    J.violation("scram-non-ascii-authid:" + proof["err"], str(proof), c, proof)
-            J.ask(lines, cb)
+                else:
+                    J.violation("scram-non-ascii-challenge-field-raises-UnicodeEncodeError",
+                                "AuthScram.on_challenge raises UnicodeEncodeError for a non-ASCII nonce / salt / channel binding although the "
+                                "auth message is UTF-8 (RFC 5802 5.1)", c, proof)
+            J.ask([am_line], cb)
             continue
+        indep_raw = r.get("indep_kdf_raw")
+        kdf_line = None
+        if kdf == "pbkdf2":
+            # Spec of the PBKDF2 flavour: SaltedPassword := PBKDF2-HMAC-SHA256(password, b64decode(salt), i, 32), errors as CPython's
+            # b64decode / the KDF raise them (Lean: Scram.saltedPassword .pbkdf2); second reference: hashlib in the worker
+            kdf_line = f"auth.scram.kdf pbkdf2 {hx(password.encode())} {cpl(extra['salt'])} {iters}"
+            res.count(f"scram:pbkdf2:iters={iters}")
+        if indep_raw is None:
+            # the independent KDF refused the parameters (e.g. Argon2 salt < 8 octets, undecodable salt, 0 iterations): the code must refuse too
+            if "err" not in proof:
+                J.violation("scram-kdf-parameters-refused-by-independent-kdf-accepted", f"{r.get('indep_kdf_err')} vs {proof}", c, proof)
+            res.count("scram:kdf-refuses")
+            if kdf_line:
+                def cb(ans, c=c, proof=proof, ierr=r.get("indep_kdf_err")):
+                    l = lean_exc(ans[0], text=False)
+                    if l != ("err", ierr):
+                        J.refs_disagree("PBKDF2 flavour, refused parameters", c, l, ierr)
+                    elif "err" in proof and proof["err"] != l[1]:
+                        J.res.correspondence_breaks.append({"stream": "SCRAM PBKDF2 flavour, error class", "case": c, "model": l[1], "impl": proof["err"]})
+                J.ask([kdf_line], cb)
+            continue
+        indep_raw = bytes.fromhex(indep_raw)
+        # the Spec's salted password is the raw KDF output (RFC 5802 / WAMP-SCRAM: SaltedPassword := KDF(Normalize(password), salt, params))
+        # what the code uses for Argon2id is the unpadded base64 text of it (open finding); for PBKDF2 it is the raw output
+        sp_text = indep_raw if kdf == "pbkdf2" else b64nopad(indep_raw)
+        lines = [am_line]
         if "err" in proof:
             if kdf == "pbkdf2" and proof["err"] == "ValueError":
                 J.violation("scram-pbkdf2-kdf-raises-ValueError",
@@ -773,15 +877,14 @@ def judge_scram(J, cases, results):
             res.count("scram:proof-type-" + str(proof.get("type")))
         # Lean: proof + server signature from (a) the code's convention (base64 text) and verification by an
         # RFC 5802 server built from (b) the raw tag; (c) same with the normalized password when it differs
-        args = f"{hx(cps(prepped))} {hx(cn_ref.encode())} {hx(extra['nonce'].encode())} {hx(extra['salt'].encode())} {iters} {hx(cb_text.encode())}"
-        lines.append(f"auth.scram.proof {hx(sp_text)} {args}")
-        lines.append(f"auth.scram.proof {hx(indep_raw)} {args}")
+        lines.append(f"auth.scram.proof {hx(sp_text)} {targs}")
+        lines.append(f"auth.scram.proof {hx(indep_raw)} {targs}")
         # second reference (hashlib) for the text convention
         ck = hmac.new(sp_text, b"Client Key", hashlib.sha256).digest()
         sk = hashlib.sha256(ck).digest()
-        csig = hmac.new(sk, am_ref.encode(), hashlib.sha256).digest()
+        csig = hmac.new(sk, am_oct, hashlib.sha256).digest()
         ref_proof = base64.b64encode(bytes(a ^ b for a, b in zip(ck, csig))).decode()
-        ref_ssig = hmac.new(hmac.new(sp_text, b"Server Key", hashlib.sha256).digest(), am_ref.encode(), hashlib.sha256).digest()
+        ref_ssig = hmac.new(hmac.new(sp_text, b"Server Key", hashlib.sha256).digest(), am_oct, hashlib.sha256).digest()
         # RFC 5802 servers: stored keys from the raw tag
         sk_raw = hashlib.sha256(hmac.new(indep_raw, b"Client Key", hashlib.sha256).digest()).digest()
         try:
@@ -797,33 +900,51 @@ def judge_scram(J, cases, results):
         if c.get("stratum") and not nz:
             res.notes.append("corpus/generated SCRAM case no longer has a leading zero octet in its proof (KDF convention changed?): "
                              + json.dumps(c)[:200])
-        lines.append(f"auth.scram.verify {hx(sk)} {hx(am_ref.encode())} {hx(proof_raw)}")
-        lines.append(f"auth.scram.verify {hx(sk_raw)} {hx(am_ref.encode())} {hx(proof_raw)}")
+        lines.append(f"auth.scram.verify {hx(sk)} {hx(am_oct)} {hx(proof_raw)}")
+        lines.append(f"auth.scram.verify {hx(sk_raw)} {hx(am_oct)} {hx(proof_raw)}")
         wl = r.get("welcome", [])
         for name, text_hex, outcome, logcalls in wl:
             lines.append(f"auth.scram.welcome {hx(sp_impl)} {hx(am_impl)} {text_hex or '-'}")
-        res.evaluations += len(wl) + 4
+        if kdf_line:
+            lines.append(kdf_line)         # last, so that the positions above are those of the Argon2id flavour
+        res.evaluations += len(wl) + 4 + (1 if kdf_line else 0)
         res.count("scram_welcome_alterations", len(wl))
 
-        def cb(ans, c=c, r=r, am_ref=am_ref, am_impl=am_impl, sp_impl=sp_impl, sp_text=sp_text, proof_text=proof_text,
-               ref_proof=ref_proof, ref_ssig=ref_ssig, wl=wl, indep_raw=indep_raw):
+        def cb(ans, c=c, r=r, am_ref=am_ref, am_oct=am_oct, am_impl=am_impl, sp_impl=sp_impl, sp_text=sp_text, proof_text=proof_text,
+               ref_proof=ref_proof, ref_ssig=ref_ssig, wl=wl, indep_raw=indep_raw, kdf=kdf, kdf_line=kdf_line):
             l_am = lean_exc(ans[0], text=False)
-            if l_am != ("ok", am_ref.encode().hex()):
+            if l_am != ("ok", am_oct.hex()):
                 J.refs_disagree("auth message", c, l_am, am_ref)
-            if am_impl != am_ref.encode():
-                J.violation("scram-auth-message-differs", f"auth message {am_impl!r}, expected {am_ref!r}", c, am_impl.decode("latin1"))
+            if am_impl != am_oct:
+                J.violation("scram-auth-message-differs", f"auth message {am_impl!r}, expected the UTF-8 octets of {am_ref!r}", c, am_impl.decode("latin1"))
             l_text = ans[1].split(" ")     # ok proof serversig
             if l_text[0] != "ok" or l_text[1] != ref_proof or l_text[2] != ref_ssig.hex():
                 J.refs_disagree("scram proof / server signature", c, ans[1], [ref_proof, ref_ssig.hex()])
+            if "sp_literal" in c and sp_impl.hex() != c["sp_literal"]:
+                J.violation("scram-pbkdf2-salted-password-differs-from-pbkdf2-hmac-sha256",
+                            f"salted password {sp_impl.hex()} differs from the published PBKDF2-HMAC-SHA256 vector {c['sp_literal']}", c, sp_impl.hex())
+            if kdf_line:
+                l_sp = lean_exc(ans[-1], text=False)
+                if l_sp != ("ok", indep_raw.hex()):
+                    J.refs_disagree("PBKDF2 flavour: salted password (Lean reference vs hashlib)", c, l_sp, indep_raw.hex())
+                if sp_impl.hex() != l_sp[1]:
+                    J.violation("scram-pbkdf2-salted-password-differs-from-pbkdf2-hmac-sha256",
+                                f"salted password {sp_impl.hex()} is not PBKDF2-HMAC-SHA256(password, b64decode(salt), {c['extra_raw']['iterations']}, 32) "
+                                f"= {l_sp[1]} (RFC 5802 Hi() with SHA-256)", c, sp_impl.hex())
             if sp_impl != sp_text:
-                J.violation("scram-salted-password-differs-from-independent-argon2id",
-                            f"salted password {sp_impl!r} is not the base64 text of the tag of {r.get('indep_kdf')} ({sp_text!r})", c)
+                if kdf != "pbkdf2":
+                    J.violation("scram-salted-password-differs-from-independent-argon2id",
+                                f"salted password {sp_impl!r} is not the base64 text of the tag of {r.get('indep_kdf')} ({sp_text!r})", c)
             elif proof_text != l_text[1]:
                 J.violation("scram-client-proof-differs", f"proof {proof_text}, RFC 5802 over this salted password gives {l_text[1]}", c, proof_text)
             # acceptance by servers
             if ans[3] != "1":
                 J.violation("scram-proof-rejected-by-server-with-same-salted-password",
                             "H(proof XOR HMAC(StoredKey, AuthMessage)) != StoredKey even for a server using the code's own salted password", c, proof_text)
+            elif ans[4] != "1" and kdf == "pbkdf2":
+                J.violation("scram-pbkdf2-proof-rejected-by-rfc5802-server",
+                            "a server holding StoredKey = H(HMAC(PBKDF2-HMAC-SHA256(password, salt, i, 32), 'Client Key')) (RFC 5802) rejects the "
+                            "client proof of the PBKDF2 flavour", c, {"proof": proof_text, "salted_password_used": sp_impl.hex(), "pbkdf2": indep_raw.hex()})
             elif ans[4] != "1":
                 J.violation("scram-argon2id-salted-password-is-base64-text",
                             "the client proof is computed from the unpadded base64 TEXT of the Argon2id tag (43 ASCII octets) used as "
@@ -832,7 +953,7 @@ def judge_scram(J, cases, results):
                             "autobahn/Crossbar.io agree with each other but not with an independent implementation", c,
                             {"proof": proof_text, "salted_password_used": sp_impl.decode(), "raw_tag": indep_raw.hex()})
             # on_welcome, every alleged signature: the code's outcome must be the Spec's, and accept only the signature
-            for (name, text_hex, outcome, logcalls), a in zip(wl, ans[5:]):
+            for (name, text_hex, outcome, logcalls), a in zip(wl, ans[5:5 + len(wl)]):
                 spec = a.replace("raised Error", "raised Error")
                 if outcome != spec:
                     alleged = bytes.fromhex(text_hex).decode("latin1")
@@ -993,7 +1114,10 @@ def run(ctx):
         "texts) x times (RFC rows, step boundaries, fractional, 2^31..2^33) x offsets x tickets (codes of steps c-2..c+3, foreign, wrong length, "
         "every single-bit alteration of the current code); generate_totp_secret with fixed entropy; AuthScram over authids (ASCII, SASLprep-mapped, "
         "non-ASCII) x passwords (empty, non-ASCII, 1 KiB, SASLprep-sensitive) x salts 8..64 octets x Argon2id (t,m) in {(1,8),(2,16),(3,64),..} "
-        "and kdf=pbkdf2 x iterations, malformed challenges; on_welcome on the genuine signature, all 256 single-bit alterations of its octets, all "
+        "and kdf=pbkdf2 x passwords x salts of 0..64 octets x iterations {1,2,1000,4096} (salted password against Lean PBKDF2, hashlib and the published "
+        "vector; proof against an RFC 5802 server built from the raw PBKDF2 output), salt texts the lenient b64decode accepts/refuses, 0 iterations; "
+        "non-ASCII authid / nonce / channel binding (1-4 octet UTF-8 sequences incl. the boundaries U+07FF/U+0800/U+FFFF/U+10000/U+10FFFF) and lone "
+        "surrogates with both KDFs; malformed challenges; on_welcome on the genuine signature, all 256 single-bit alterations of its octets, all "
         "single-bit alterations of its base64 text, prefixes, extension, empty, junk-interleaved, client signature, swapped label; cryptosign over "
         "seeds (RFC 8032 key, zero, ones, random) x binding on/off x channel ids x key/authenticator entry points x hex case, all 512+256 "
         "single-bit alterations of signature and data, all 256+256 of challenge and channel id, malformed challenges/ids/methods. "
@@ -1087,7 +1211,9 @@ def judge_scram_normalization(J, cases, results):
     for (c, r, n), r2 in zip(todo, out):
         if "indep_kdf_raw" not in r2:
             continue
-        sp_norm = b64nopad(bytes.fromhex(r2["indep_kdf_raw"]))
+        sp_norm = bytes.fromhex(r2["indep_kdf_raw"])
+        if bytes.fromhex(c["extra"]["kdf"]).decode() != "pbkdf2":
+            sp_norm = b64nopad(sp_norm)          # the code's convention for Argon2id (kept apart from that finding)
         sk = hashlib.sha256(hmac.new(sp_norm, b"Client Key", hashlib.sha256).digest()).digest()
         am = bytes.fromhex(r["auth_message"])
         proof = base64.b64decode(bytes.fromhex(r["proof"]["ok"]))
